@@ -46,6 +46,20 @@ Theorem C02_sum_innerprod_parts_sparse : forall (parts : list part) (S : sparse 
   spec_innerprod v0 vadd vmul (den_parts v0 vadd (map (den_part v0 v1 vadd vmul) parts)) (den_sp v0 S) s.
 Proof. exact (impl_innerprod_sum_sp_correct V v0 v1 vadd vmul vsub vopp Vring isz). Qed.
 
+(* sumtensor.innerprod(K), K Kruskal, and sumtensor.innerprod(T'), T' Tucker: dense / sparse parts reverse the arguments *)
+Theorem C02_sum_innerprod_parts_kruskal : forall (parts : list part) (K : ktensor V) s,
+  Forall (wf_part isz s) parts -> kshape K = s ->
+  impl_innerprod_sum_k v0 v1 vadd vmul parts K =
+  spec_innerprod v0 vadd vmul (den_parts v0 vadd (map (den_part v0 v1 vadd vmul) parts)) (den_k v0 v1 vadd vmul K) s.
+Proof. exact (impl_innerprod_sum_k_correct V v0 v1 vadd vmul vsub vopp Vring isz). Qed.
+
+Theorem C02_sum_innerprod_parts_tucker : forall (parts : list part) (T' : ttensor V) s,
+  Forall (wf_part isz s) parts -> 1 <= length s ->
+  wf_dense (tcore T') -> length (dshape (tcore T')) = length (tfactors T') -> tshape T' = s ->
+  impl_innerprod_sum_t v0 v1 vadd vmul (impl_innerprod_t_sp V v0 vadd vmul) parts T' =
+  spec_innerprod v0 vadd vmul (den_parts v0 vadd (map (den_part v0 v1 vadd vmul) parts)) (den_t v0 v1 vadd vmul T') s.
+Proof. exact (impl_innerprod_sum_t_correct V v0 v1 vadd vmul vsub vopp Vring isz). Qed.
+
 (* sumtensor.mttkrp(Us, n), entry (x, r): the parts' MTTKRPs (dense: all three branches; sparse; Kruskal: Gram / Hadamard; Tucker: through the core) added *)
 Theorem C02_sum_mttkrp_parts : forall (parts : list part) (Us : list (@matrix V)) s n R x r,
   Forall (wf_part isz s) parts -> 2 <= length s -> n < length s -> length Us = length s ->
@@ -68,6 +82,8 @@ Print Assumptions C02_innerprod_kruskal_sparse.
 Print Assumptions C02_innerprod_kruskal_tucker.
 Print Assumptions C02_sum_innerprod_parts_dense.
 Print Assumptions C02_sum_innerprod_parts_sparse.
+Print Assumptions C02_sum_innerprod_parts_kruskal.
+Print Assumptions C02_sum_innerprod_parts_tucker.
 Print Assumptions C02_sum_mttkrp_parts.
 Print Assumptions C02_sum_ttv_parts.
 
